@@ -489,7 +489,7 @@ def _line_tracer(k):
 
     def local(frame, event, arg):
         if event == "line" and not k.in_handler:
-            k.inject("line")
+            k.inject("line:" + frame.f_code.co_name)       # (one label per function: schedules can aim at a function)
         return local
 
     def tracer(frame, event, arg):
